@@ -25,7 +25,8 @@ RULE = ("A1: one rule t(H1,H2) :- G1..Gn (n<=3 quick, 4 thorough) over leaf goal
         "of {A,B,L,M} to the argument slots; A3: t3(A,B,C) with every assignment of {A,B,C,L} to the arguments of one "
         "or two q3/3 calls (register shuffles); B: every control tree with <=5 (quick) / <=6 (thorough) nodes over "
         "{true,fail,X=a,X=b,Y=X,r(X),!} and {',',;,->,->;,\\+,call/1}, directly in a 2-clause predicate and nested "
-        "through a helper. 3-4 queries per program (open, first/second argument bound, structure). "
+        "through a helper; C: every conjunction of <=3 goals over {!,fail,true,r(X),X=a} containing a cut as the condition of "
+        "if-then(-else), under \\+ and under call/1. 3-4 queries per program (open, first/second argument bound, structure). "
         "A case is one (program, query). Non-trivial: REF's run resumes a choice point at least once or executes a "
         "cut that removes at least one choice point.")
 LEVEL_TEXT = ("exhaustive within the stated program-size bound; the oracle is an independent interpreter, so any "
@@ -39,12 +40,13 @@ BATCH = 250
 
 def bound_text(tier):
     if tier == "thorough":
-        return ("A1 bodies n<=3 over 14 leaves (n=3: 7 leaves, 5 heads; n=4: 4 leaves) x all sharing patterns <=4 vars; "
-                "A2 all control skeletons x 3 pre x 4 post x all slot assignments; A3 incl. structure arguments; "
-                "B all control trees <=6 nodes x 2 contexts")
+        return ("A1 bodies n<=2 over 14 leaves x 5 heads, n=3 over 6 leaves x 3 heads (all sharing patterns <=4 vars), "
+                "n=4 over 3 leaves (<=3 vars); A2 all control skeletons x 3 pre x 4 post x all slot assignments "
+                "(4 names up to 5 slots, 3 names for 6, 2 names above); A3 incl. structure arguments; "
+                "B all control trees <=6 nodes x 2 contexts; C cut-in-condition family")
     return ("A1 bodies n<=2 over 9 leaves x 5 heads x all sharing patterns <=4 vars, n=3 over 4 leaves x 2 heads <=3 vars; "
             "A2 all control skeletons x 2 pre x 2 post x all slot assignments; A3 4352 argument assignments; "
-            "B all control trees <=5 nodes x 2 contexts")
+            "B all control trees <=5 nodes x 2 contexts; C cut-in-condition family (all conjunctions <=3 goals)")
 
 
 # ---------------------------------------------------------------------------
@@ -61,9 +63,9 @@ def _n_a2(k, pool_len):
 
 
 def _a2_pool_len(k, tier):
-    if k <= (6 if tier == "thorough" else 5):
+    if k <= (5 if tier == "thorough" else 4):
         return 4
-    if k <= (8 if tier == "thorough" else 7):
+    if k <= (6 if tier == "thorough" else 5):
         return 3
     return 2
 
@@ -111,6 +113,8 @@ def shards(tier):
     for k in range(m):
         sh.append(("A3", k, m))
     maxsize = 6 if tier == "thorough" else 5
+    sh.append(("C", 0, 2))
+    sh.append(("C", 1, 2))
     for ctx in ("plain", "nested"):
         sh.append(("B", 1, 4, ctx, 0, 1))
         sh.append(("B", 5, 5, ctx, 0, 4))
@@ -138,6 +142,11 @@ def programs(shard, tier):
     elif fam == "A3":
         for i, p in enumerate(S.a3_programs(tier)):
             if i % shard[2] == shard[1]:
+                yield p
+    elif fam == "C":
+        for i, p in enumerate(S.c_programs()):
+            if i % shard[2] == shard[1]:
+                p["fam"] = "C"
                 yield p
     elif fam == "B":
         _, lo, hi, ctx, k, m = shard
@@ -218,8 +227,8 @@ def run_shard(w, shard, tier):
                     acc.violation("%s consult-error: %s" % (p["fam"], b.failed[p["suf"]]), case_of(p, qi),
                                   expected="program loads", observed=b.failed[p["suf"]])
                     continue
-                if ref_res[1] == "budget":
-                    acc.case(False, "ref-budget", sample=smp)
+                if ref_res[1] in ("budget", "sto"):
+                    acc.case(False, "skipped:" + ref_res[1], sample=smp)
                     continue
                 acc.case(nontriv, label(ref_res, p["feat"]), sample=smp)
                 if not H.same_result(ref_res, impl_res):
@@ -231,9 +240,7 @@ def run_shard(w, shard, tier):
 def recheck(w, case, tier):
     clauses = [S.dec(c) for c in case["clauses"]]
     q = S.dec(case["query"])
-    p = {"fam": case["fam"], "clauses": clauses, "queries": [q], "feat": S.features(clauses[0][2] if clauses[0][0] == ":-" else "true")}
-    if case["fam"] == "Bn":
-        p["feat"] = S.features(clauses[2][2])
+    p = {"fam": case["fam"], "clauses": clauses, "queries": [q], "feat": S.program_features(clauses)}
     base = H.base_ref()
     b = H.Batch(w)
     b.consult([("_rc", clauses)])
